@@ -56,7 +56,7 @@ def run(out, prelude):
         evaluations=steps, distinct_nontrivial=len(res) * clients,
         rule="%d runs x %d goroutine clients on one instance under the race detector; each client runs register, confirm, "
              "failed and successful login with remember, app access, otp add, logout, recover start/end, old/new password on "
-             "its own account; evaluations = client steps compared with the solo transcript; distinct = client schedules "
+             "its own account (one client of every twelfth run also enrols TOTP, logs in with a recovery code, replays it, and logs in through OAuth2); evaluations = client steps compared with the solo transcript; distinct = client schedules "
              "(each concurrent run is a different interleaving)" % (len(res), clients),
         samples=[dict(transcript=(res[0]["sample"] if res else []))],
         race_reports=len(reports), schedules=len(res), traces_validated_against_impl=len(res) * clients)
